@@ -6,6 +6,7 @@ import TantivyModel.Proofs.Store.Merge
 import TantivyModel.Proofs.Store.Channel
 import TantivyModel.Model.Store.Version
 import TantivyModel.Proofs.Store.VInt32
+import TantivyModel.Model.Store.JsonNumber
 /-!
 # C09 — Stored documents are returned exactly as they were added
 
@@ -87,6 +88,34 @@ any length below 4 GiB held by a `TantivyDocument` is read back exactly, whateve
 theorem C09_compact_doc_bytes_roundtrip (data rest : Bytes) (h : data.length < 4294967296) :
     cdReadBytes (cdWriteBytes data ++ rest) = some data :=
   cdReadBytes_write data rest h
+
+/-! ### documents added from JSON: classification of numbers -/
+
+/-- a JSON integer becomes an `I64` if it fits, else a `U64` if it fits (type-preserving, value
+kept), for the dispatch order found in `From<serde_json::Value> for OwnedValue` -/
+theorem C09_json_number_typed (n : Int) (h1 : -9223372036854775808 ≤ n) (h2 : n ≤ 18446744073709551615) :
+    jsonNumber n = some (if n ≤ 9223372036854775807 then .int64 n else .uint64 n) := by
+  unfold jsonNumber jsonNumberWith
+  have hd : Gen.JSON_NUMBER_DISPATCH = [0, 1, 2] := by decide
+  rw [hd]
+  by_cases h : n ≤ 9223372036854775807
+  · have : numAccepts 0 n = true := by simp [numAccepts]; omega
+    simp [List.find?, this, numBuild, h]
+  · have a0 : numAccepts 0 n = false := by simp [numAccepts]; omega
+    have a1 : numAccepts 1 n = true := by simp [numAccepts]; omega
+    simp [List.find?, a0, a1, numBuild, h]
+
+/-- hence no two integers of [i64::MIN, u64::MAX] are stored as the same value, and none of them
+becomes a float -/
+theorem C09_json_number_injective (a b : Int)
+    (ha1 : -9223372036854775808 ≤ a) (ha2 : a ≤ 18446744073709551615)
+    (hb1 : -9223372036854775808 ≤ b) (hb2 : b ≤ 18446744073709551615)
+    (h : jsonNumber a = jsonNumber b) : a = b ∧ jsonNumber a ≠ some .float := by
+  rw [C09_json_number_typed a ha1 ha2, C09_json_number_typed b hb1 hb2] at h
+  rw [C09_json_number_typed a ha1 ha2]
+  constructor
+  · split at h <;> split at h <;> simp at h <;> first | exact h | omega
+  · split <;> simp
 
 /-! ### skip index -/
 
@@ -395,5 +424,9 @@ example : SameVersion 2 := by unfold SameVersion; decide
 example : serializeVintU32 2097152 = [0, 0, 0, 129] := by decide
 example : serializeVintU32 2097151 = [127, 127, 255] := by decide
 example : readU32Vint ([0, 0, 0, 129, 7] : Bytes) = some (2097152, 4) := by decide
+
+example : jsonNumber 9223372036854775808 = some (.uint64 9223372036854775808) := by decide
+example : jsonNumber (-1) = some (.int64 (-1)) := by decide
+example : jsonNumberWith [0, 2, 1] 18446744073709551615 = some .float := by decide
 
 end TantivyModel.C09
